@@ -440,6 +440,9 @@ func init() {
 			mn, mx := tierOps(tier, 4, 18)
 			ctl := sampleCtl(r)
 			ctl.AllowCrossNamespace = r.IntN(8) == 0
+			if r.IntN(3) == 0 {
+				ctl.DefaultService = []string{"a/s1", "b/s1", "a/s2"}[r.IntN(3)] // its annotations are read with no ingress behind them
+			}
 			rc := &RunConfig{Property: "C09", Profile: "xns", Seed: seed, Ctl: ctl, MapOrder: r.IntN(2) == 0, Lagfree: r.IntN(2) == 0, MidSched: r.IntN(3) == 0}
 			w := map[string]int{"ing_create": 6, "ing_delete": 3, "ing_update": 8, "ing_ann": 14, "global_change": 12, "secret_rotate": 4, "secret_delete": 3, "secret_create": 4,
 				"svc_update": 2, "ep_scale": 2, "renotify": 2, "advance": 3}
@@ -466,7 +469,7 @@ func init() {
 			}
 			rc.World, rc.Ops = GenerateRun(seed, GenOptions{Sparse: r.IntN(2) == 0,
 				IngressKeys: []string{"secure-crt-secret", "secure-verify-ca-secret", "auth-tls-secret", "auth-secret", "auth-url", "auth-tls-verify-client", "secure-backends", "balance-algorithm"},
-				ServiceKeys: []string{"balance-algorithm", "timeout-server"}, ValueOverrides: refs, AnnChance: 2,
+				ServiceKeys: []string{"balance-algorithm", "secure-backends", "secure-crt-secret", "secure-verify-ca-secret", "auth-secret"}, ValueOverrides: refs, AnnChance: 2,
 				GlobalKeys:    []string{"cross-namespace-secrets-crt", "cross-namespace-secrets-ca", "cross-namespace-secrets-passwd", "cross-namespace-services", "timeout-client"},
 				InitialGlobal: initial, TLSSecrets: []string{"tls1", "b/tls1", "a/tls1", "a/tls2", "secret://b/tls1", "b/missing", ""},
 				Hosts: []string{"app.local", "api.local", "web.local", "h4.local"}, MinOps: mn, MaxOps: mx, QuiesceEvery: pickInt(r, 2, 4), KeysPerRun: 8, W: w, NoForeignClass: true})
@@ -490,6 +493,33 @@ func init() {
 				ValueOverrides: map[string][]string{"auth-url": {"svc://s1:8080", "svc://s1:8080/check", "svc://a/s2:8080", "svc://s2:8080", "svc://b/s3:8081", "svc://s1:80", "http://10.9.9.9:8000/auth"}, "auth-external-placement": {"backend", "backend", "frontend"}},
 				GlobalKeys:     []string{"auth-proxy", "timeout-client"}, InitialGlobal: initial, AnnChance: 1, OwnHostAlways: true, Sparse: true,
 				MinOps: mn, MaxOps: mx, QuiesceEvery: pickInt(r, 2, 4), KeysPerRun: 3, W: w, NoForeignClass: true})
+			return rc
+		}})
+
+	// every ingress on hosts of its own, every key closed: what namespace X gets is a function of X alone
+	register(&Profile{Name: "xns-projection", Prop: "C09", Weight: 1,
+		Oracles: OracleSet{Property: "C09", NSProjection: true, CrossNS: true},
+		Build: func(seed uint64, tier string) *RunConfig {
+			r := cfgRng(seed)
+			mn, mx := tierOps(tier, 4, 14)
+			ctl := sampleCtl(r)
+			ctl.AllowCrossNamespace, ctl.DefaultService = false, ""
+			rc := &RunConfig{Property: "C09", Profile: "xns-projection", Seed: seed, Ctl: ctl, MapOrder: r.IntN(2) == 0, Lagfree: r.IntN(2) == 0}
+			w := map[string]int{"ing_create": 8, "ing_delete": 4, "ing_update": 8, "ing_ann": 14, "svc_update": 2, "ep_scale": 3, "secret_rotate": 2, "renotify": 2, "advance": 3}
+			refs := map[string][]string{
+				"oauth":                   {"oauth2_proxy"},
+				"auth-url":                {"svc://s1:8080", "svc://b/s1:8080", "svc://a/s2:8080", "http://10.9.9.9:8000/auth"},
+				"secure-crt-secret":       {"tls1", "b/tls1", "a/tls2"},
+				"secure-verify-ca-secret": {"ca", "b/ca", "a/ca"},
+				"auth-secret":             {"auth", "b/auth", "a/auth"},
+				"secure-backends":         {"true"},
+			}
+			rc.World, rc.Ops = GenerateRun(seed, GenOptions{Sparse: true, OwnHostAlways: true, NoDefaultBackend: true,
+				IngressKeys: []string{"oauth", "auth-url", "secure-crt-secret", "secure-verify-ca-secret", "auth-secret", "secure-backends", "balance-algorithm"},
+				ServiceKeys: []string{"balance-algorithm", "timeout-server"}, ValueOverrides: refs, AnnChance: 2,
+				GlobalKeys: []string{"timeout-client"}, InitialGlobal: map[string]string{"external-has-lua": "true", "auth-proxy": "_front__auth:14415-14430"},
+				Paths: []string{"/", "/app", "/oauth2", "/oauth2", "/api"}, TLSSecrets: []string{"tls1", "b/tls1", "a/tls1", ""},
+				MinOps: mn, MaxOps: mx, QuiesceEvery: pickInt(r, 2, 4), KeysPerRun: 7, W: w, NoForeignClass: true})
 			return rc
 		}})
 
